@@ -494,6 +494,12 @@ func ExprString(e *Expr) string {
 // ---------------------------------------------------------------------------------
 // Layout
 
+// Comments is the pool of comment texts the layouts draw from: empty comments, comments
+// that look like code, non-ASCII comments, comments ending in non-ASCII text.
+var Comments = []string{"#", "//", "# c ) } \"", "// if ( {", "# end", "// break", "#注意: this is not the end", "// 終わり: do not break", "# Pokémon", "//é", "# return }}} \\", "//\t", "#  ", "// continue // #"}
+
+func comment(next func() uint64) string { return Comments[next()%uint64(len(Comments))] }
+
 // NL is a layout hint (statement boundary); it is not a lexeme.
 const NL = "\x00nl"
 
@@ -573,9 +579,9 @@ func Layout(toks []string, style int, next func() uint64) string {
 				case 4:
 					sb.WriteByte('\t')
 				case 5:
-					sb.WriteString(" # c ) } \"\n")
+					sb.WriteString(" " + comment(next) + "\n")
 				case 6:
-					sb.WriteString(" // if ( {\n  ")
+					sb.WriteString(" " + comment(next) + "\r\n  ")
 				case 7:
 					sb.WriteString("  \n\n ")
 				default:
@@ -631,10 +637,10 @@ func TightJoin(toks []string, comments bool, next func() uint64) string {
 		if comments && next != nil {
 			switch next() % 12 {
 			case 0:
-				sb.WriteString("#c\n")
+				sb.WriteString(comment(next) + "\n")
 				prev = ""
 			case 1:
-				sb.WriteString("//c\r\n")
+				sb.WriteString(comment(next) + "\r\n")
 				prev = ""
 			case 2:
 				sb.WriteString("\n")
@@ -643,7 +649,7 @@ func TightJoin(toks []string, comments bool, next func() uint64) string {
 		}
 	}
 	if comments && next != nil && next()%2 == 0 {
-		sb.WriteString("#end") // a comment at end of input without a newline
+		sb.WriteString(comment(next)) // a comment at end of input without a newline
 	} else {
 		sb.WriteByte('\n')
 	}
